@@ -1,6 +1,7 @@
 package mon
 
 import (
+	"encoding/binary"
 	"bytes"
 	"fmt"
 	"net"
@@ -211,6 +212,59 @@ func c16Unpack(w *core.W, j int) {
 		}
 		if d := bridge.Diff(snap, rr); d != "" {
 			w.Violation("C16/unpackrr-alias-observable/"+r.L.Name+"/"+diffField(d), "overwriting the input buffer changed the decoded record at "+d, map[string]any{"wire": hx(wire)})
+		}
+	}
+	// "a message returned by Unpack" - whatever the decoder accepts, well-formed or not: OPT records whose
+	// known options carry bodies of a length (or content) their own decoders refuse, and structure-aware
+	// mutations of the message above. Most are refused; what is accepted is walked like any other message.
+	var hostile [][]byte
+	optBodies := map[uint16][][]byte{
+		1: {make([]byte, 17), make([]byte, 19)}, 2: {{0, 0, 0}, {0, 0, 0, 0, 1}}, 3: {{}}, 5: {{}}, 6: {{}}, 7: {{}}, 8: {{0, 3, 0, 0}, {0, 1, 33, 0, 1, 2, 3, 4, 5}, {0}, {0, 1, 24}},
+		9: {{1}, {1, 2, 3}, {1, 2, 3, 4, 5}}, 10: {make([]byte, 7), make([]byte, 9), make([]byte, 15), make([]byte, 41)}, 11: {{1}, {1, 2, 3}}, 12: {{1, 2, 3}}, 15: {{0}, {}}, 4: {{}}, 19: {{1}, {2, 0}},
+	}
+	for code, bodies := range optBodies {
+		for _, b := range bodies {
+			rd := binary.BigEndian.AppendUint16(nil, code)
+			rd = binary.BigEndian.AppendUint16(rd, uint16(len(b)))
+			rd = append(rd, b...)
+			// in front of and behind a well-formed local option
+			rd2 := append(append([]byte{0xFD, 0xE9, 0, 3, 'a', 'b', 'c'}, rd...), 0xFD, 0xEA, 0, 2, 'x', 'y')
+			hostile = append(hostile, rrMsg(41, rd), rrMsg(41, rd2))
+		}
+	}
+	base := m.Wire()
+	if len(base) < 4000 {
+		off := walkOffsets(base)
+		for k := 0; k < 12; k++ {
+			hostile = append(hostile, c02Mutate(g.R, base, off))
+		}
+	}
+	for _, wire := range hostile {
+		if len(wire) < 12 || len(wire) > 65535 {
+			continue
+		}
+		buf := make([]byte, len(wire), len(wire)+32)
+		copy(buf, wire)
+		lo := uintptr(unsafe.Pointer(&buf[0]))
+		dm := new(dns.Msg)
+		wit := map[string]any{"wire": hx(wire), "kind": "hostile input the decoder accepts"}
+		var err error
+		w.Count("hostile_inputs_offered", 1)
+		if w.Guard("Msg.Unpack", wit, func() { err = dm.Unpack(buf) }) || err != nil {
+			continue
+		}
+		w.Eval(1)
+		w.Count("hostile_inputs_accepted_and_walked", 1)
+		if r, ok := graph.OverlapBuf(graph.All(dm), lo, lo+uintptr(cap(buf))); ok {
+			w.Violation("C16/unpack-alias/"+normPath(r.Path), fmt.Sprintf("the message decoded from a hostile input references the input buffer at %s (%s)", r.Path, r.Kind), wit)
+			continue
+		}
+		snap := graph.Clone(dm).(*dns.Msg)
+		for i := range buf {
+			buf[i] ^= 0xA5
+		}
+		if d := bridge.Diff(snap, dm); d != "" {
+			w.Violation("C16/unpack-alias-observable/"+diffField(d), "overwriting the input buffer changed the message decoded from a hostile input at "+d, wit)
 		}
 	}
 }
